@@ -10,9 +10,11 @@ TUS = ['src/engine/engine_collision_driver.c']
 EXPLANATION = ('llsym executes the real static filter functions of engine_collision_driver.c: filterBitmask and canCollide2 over all 32-bit masks, filterBodyPair over all argument values '
                '(restated documented rule), filterBox / filterSphereBox / filterSphere in real arithmetic (a pair is discarded only if the volumes are separated by more than the margin), '
                'and mj_SAP with the real SAPsort instantiation in exact IEEE arithmetic (double inputs, float sort keys) on n boxes with fully symbolic coordinates: every pair of boxes whose '
-               'intervals overlap on all three axes is returned exactly once, no pair is returned twice or with equal ids, at most maxpair pairs.')
-BOUNDS = {'quick': {'SAP': 'n = 2 boxes, 3 sweep axes, coordinates any finite double', 'masks': 'all 32-bit'}, 'thorough': {'SAP': 'same as quick (n = 3 does not finish within 2800 s)'}}
-OUTSIDE = 'sweep-and-prune over three or more boxes (exact binary64 reasoning does not finish); mj_broadphase principal-axis projection, mj_collideTree / BVH, flex paths, contact ordering (contactcompare), the assembled mj_collision.'
+               'intervals overlap on all three axes is returned exactly once, no pair is returned twice or with equal ids, at most maxpair pairs. mj_broadphase after the sweep (mj_SAP stubbed to return every pair of collidable bodies, '
+               'makeAAMM / mju_eig3 stubbed away): on small trees with weld groups the body pairs that come out are exactly those kept by the documented rules restated on the tree (same weld group, both groups dof-less, parent / child groups unless disabled, '
+               'collision masks), sorted, without duplicates.')
+BOUNDS = {'quick': {'SAP': 'n = 2 boxes, 3 sweep axes, coordinates any finite double', 'masks': 'all 32-bit', 'broadphase': 'trees weldchain (5 bodies), static (5), weldfork (6); one sphere per body; filterparent on / off; masks of two bodies symbolic in [0,3]'}, 'thorough': {'SAP': 'same as quick (n = 3 does not finish within 2800 s)'}}
+OUTSIDE = 'sweep-and-prune over three or more boxes (exact binary64 reasoning does not finish); mj_broadphase principal-axis projection and AAMM construction (stubbed in the broadphase units), planes / flexes / sleeping in mj_broadphase, mj_collideTree / BVH, flex paths, contact ordering (contactcompare), the assembled mj_collision.'
 ASSUMPTIONS = ['AAMM coordinates finite, min <= max per axis', 'mj_stackAllocInfo returns a fresh block of the requested size (its own contract is C19)', 'real-number semantics for the geometric filters']
 BUDGET = {'quick': 600, 'thorough': 3000}
 _c = {}
@@ -34,7 +36,7 @@ def lay():
     return _c['l']
 
 
-def prepare(tier): mod(); so(); lay()
+def prepare(tier): mod(); so(); lay(); so_bp()
 
 
 def I(v): return z3.BitVecVal(v, 32)
@@ -186,8 +188,106 @@ def unit_sap(tier, n, axis):
     return ck
 
 
+BP_TOPO = {  # parent, dofnum per body (body 0 = world); weld groups follow from the dof-less bodies
+    'weldchain': ([0, 0, 1, 2, 3], [0, 1, 1, 0, 1]),       # world - P(1 dof) - A(1 dof) - B(welded to A) - C(1 dof)
+    'static': ([0, 0, 1, 0, 3], [0, 0, 1, 1, 0]),           # world - S(static) - X(1 dof); world - Y(1 dof) - Z(welded to Y)
+    'weldfork': ([0, 0, 1, 2, 2, 1], [0, 1, 0, 1, 1, 1]),   # world - P - Q(welded to P) - {R, T}; P - U
+}
+
+
+def unit_broadphase(tier, topo, dsbl, world_geom, sym_masks):
+    """mj_broadphase AFTER the sweep: with mj_SAP replaced by a stub that returns every pair of collidable bodies (a superset, as the sweep must), the body pairs
+    that come out are exactly those the documented rules keep - rules restated on the model's tree, not on the code: two bodies are filtered when they are in the same
+    weld group, when both groups have no dofs, or (unless disabled) when one group is the parent group of the other and neither is the world group"""
+    ck = Checker('broadphase_%s_d%d_w%d_m%d' % (topo, dsbl, world_geom, sym_masks), tier, timeout_s=120, semantics='real')
+    par, dofn = BP_TOPO[topo]; nb = len(par)
+    weld = [0] * nb
+    for b in range(1, nb): weld[b] = b if dofn[b] > 0 else weld[par[b]]
+    def parent_group(b):
+        a = par[b]
+        while a != 0 and weld[a] == weld[b]: a = par[a]
+        return weld[a]
+    L = lay(); KD = build.enum_values('mjDSBL_'); KG = build.enum_values('mjGEOM_')
+    w = W.World('real')
+    gb = [b for b in range(nb) if b > 0 or world_geom]; ng = len(gb)       # one sphere per body (world: optional)
+    gadr = [gb.index(b) if b in gb else -1 for b in range(nb)]
+    M, _ = W.full_struct(w, L, 'mjModel_', 'MJMODEL_POINTERS', {'nbody': nb, 'ngeom': ng}, 'm', default_size=0,
+                         values={'body_parentid': par, 'body_weldid': weld, 'body_dofnum': dofn, 'body_geomnum': [1 if b in gb else 0 for b in range(nb)], 'body_geomadr': gadr,
+                                 'geom_bodyid': gb, 'geom_type': [KG['mjGEOM_SPHERE']] * ng, 'geom_margin': [1.0] * ng, 'body_treeid': [-1 if weld[b] == 0 else 0 for b in range(nb)]})
+    M.set('opt.disableflags', KD['mjDSBL_FILTERPARENT'] if dsbl else 0); M.set('opt.enableflags', 0); M.set('nflex', 0); M.set('nflexvert', 0)
+    symb = [b for b in gb if sym_masks and b in gb[-2:]]       # symbolic collision masks on the last two bodies, 1 elsewhere
+    ct = {}; ca = {}; pre = []
+    for b in gb:
+        if b in symb:
+            ct[b] = z3.BitVec('contype%d' % b, 32); ca[b] = z3.BitVec('conaffinity%d' % b, 32); w.syms += [('contype%d' % b, 'i32', ct[b]), ('conaffinity%d' % b, 'i32', ca[b])]
+            pre += [z3.ULE(ct[b], 3), z3.ULE(ca[b], 3)]
+        else: ct[b] = I(1); ca[b] = I(1)
+    M.arr('geom_contype', 'i32', ng, [ct[b] for b in gb]); M.arr('geom_conaffinity', 'i32', ng, [ca[b] for b in gb])
+    M.arr('body_contype', 'i32', nb, [ct.get(b, I(0)) for b in range(nb)]); M.arr('body_conaffinity', 'i32', nb, [ca.get(b, I(0)) for b in range(nb)])      # model invariant: OR over the body's geoms
+    D, _ = W.full_struct(w, L, 'mjData_', 'MJDATA_POINTERS', {'nbody': nb, 'ngeom': ng}, 'd', default_size=0)
+    ar = w.obj('arena', 8192).zeros(); D.o.put(D.off('arena'), 'ptr', (ar, 0)); D.set('narena', 8192)
+    maxpair = nb * (nb - 1) // 2 + 2
+    po, _ = w.arr('bfpair', 'i32', maxpair, [0x7777] * maxpair)
+    def alloc(ex, st, args, ins):
+        size = ex.as_int(args[1]); return st.alloc(size, ('stack', len(st.objs)))
+    noop = lambda ex, st, args, ins: None
+    def sap_all(ex, st, args, ins):
+        n = ex.as_int(args[2]); k = 0
+        for i in range(n):
+            for j in range(i + 1, n):
+                ex.store(st, llsym.Ptr(args[4].obj, args[4].off + 4 * k), IntT(32), I((i << 16) + j)); k += 1
+        return I(k)
+    ex = llsym.Exec(mod(), fpmode='real', loop_bound=4 * nb * nb + 16, max_paths=20000,
+                    stubs={'mj_stackAllocInfo': alloc, 'mj_markStack': noop, 'mj_freeStack': noop, 'mj_SAP': sap_all, 'makeAAMM': noop, 'mju_eig3': lambda ex, st, a, i: I(0)})
+    st = w.to_state(ex); st.pc += pre
+    res = ex.run('@mj_broadphase', [w.P(M.o), w.P(D.o), w.P(po), I(maxpair)], st)
+    ck.note_results(ex, res)
+    can = lambda b: z3.Or(ct[b] != 0, ca[b] != 0) if b in gb else z3.BoolVal(False)
+    compat = lambda a, b: z3.Or((ct[a] & ca[b]) != 0, (ct[b] & ca[a]) != 0)
+    def filtered(a, b):
+        if weld[a] == weld[b]: return True
+        if dofn[weld[a]] == 0 and dofn[weld[b]] == 0: return True
+        if not dsbl and weld[a] != 0 and weld[b] != 0 and (parent_group(weld[b]) == weld[a] or parent_group(weld[a]) == weld[b]): return True
+        return False
+    cand = [(a, b) for a in range(nb) for b in range(a + 1, nb)]
+    want = {}
+    for a, b in cand:
+        if a not in gb or b not in gb or filtered(a, b): want[(a, b)] = z3.BoolVal(False)
+        else: want[(a, b)] = z3.And(can(a), can(b), compat(a, b))
+    dec = lambda mdl: {'topology': topo, 'parent': par, 'dofnum': dofn, 'weld': weld, 'filterparent disabled': bool(dsbl), 'masks': {str(b): [W.evalnum(mdl, ct[b]), W.evalnum(mdl, ca[b])] for b in symb}}
+    nret = 0
+    for r in res:
+        if r.kind != 'return': continue
+        nret += 1
+        npair = r.value; pairs = [ex.load(r.state, w.P(po, 4 * k), IntT(32)) for k in range(maxpair)]
+        rp = W.make_replay(so_bp(), 'mj_broadphase', w, [('ptr', (M.o, 0)), ('ptr', (D.o, 0)), ('ptr', (po, 0)), ('i32', maxpair)], restype='i32', ret_term=npair,
+                           outputs=[('bfpair%d' % k, po, 4 * k, 'i32', pairs[k]) for k in range(maxpair)], semantics='real')
+        listed = lambda a, b: z3.Or(*[z3.And(I(k) < npair, pairs[k] == (a << 16) + b) for k in range(maxpair)])
+        for a, b in cand:
+            ck.prove('bodies %d,%d are in the broad-phase output iff both can collide, their masks are compatible and no documented body filter applies' % (a, b), r.state.pc, listed(a, b) == want[(a, b)],
+                     site='mj_broadphase:filter', decode=dec, replay=rp)
+        ck.prove('output sorted by signature, no duplicates, count = number of kept pairs', r.state.pc,
+                 z3.And(npair == sum([z3.If(want[c], I(1), I(0)) for c in cand], I(0)), *[z3.Implies(I(k + 1) < npair, pairs[k] < pairs[k + 1]) for k in range(maxpair - 1)]), site='mj_broadphase:sorted', decode=dec, replay=rp)
+    if nret == 0: ck.error('no returning path')
+    ck.paths['broadphase'] = nret
+    if pre: ck.reach('mask ranges', pre)
+    ck.memory_obligations(res, decode=dec)
+    return ck
+
+
+# native replay: every sphere sits at the origin with a large bounding box, so the REAL mj_SAP returns every pair as the stub does
+def so_bp():
+    if 'sobp' not in _c: _c['sobp'] = build.native_lib(TUS, SUP + ['src/engine/engine_util_solve.c', 'src/engine/engine_util_spatial.c', 'src/engine/engine_sleep.c', 'src/engine/engine_support.c', 'src/engine/engine_core_util.c'], name='colldriver_bp')
+    return _c['sobp']
+
+
 def units(tier):
     u = [('bitmask', 'unit_bitmask', {}), ('bodypair', 'unit_bodypair', {}), ('geomfilters', 'unit_geomfilters', {})]
     for ax in (0, 1, 2): u.append(('SAP_n2_axis%d' % ax, 'unit_sap', {'n': 2, 'axis': ax}))
+    for topo in BP_TOPO:
+        for dsbl in (0, 1):
+            u.append(('broadphase_%s_d%d_w1_m0' % (topo, dsbl), 'unit_broadphase', {'topo': topo, 'dsbl': dsbl, 'world_geom': 1, 'sym_masks': 0}))
+    u.append(('broadphase_weldchain_d0_w0_m1', 'unit_broadphase', {'topo': 'weldchain', 'dsbl': 0, 'world_geom': 0, 'sym_masks': 1}))
+    u.append(('broadphase_static_d0_w1_m1', 'unit_broadphase', {'topo': 'static', 'dsbl': 0, 'world_geom': 1, 'sym_masks': 1}))
     # three boxes (SAP_n3) do not finish within 2800 s of exact floating-point reasoning: outside the claim
     return u
